@@ -1208,6 +1208,47 @@ fn k_platform(sc: &J, r: &R) {
     }
 }
 
+// update_mmap / update_mmap_rayon on a file that can be opened, seeked and read but (possibly) not mapped
+// must give what update_reader gives on a freshly opened handle
+fn k_mmap_special(sc: &J, r: &R) {
+    let path = sc.s("path");
+    #[cfg(feature = "mmap")]
+    {
+        let meta = std::fs::metadata(path);
+        let usable = match &meta {
+            Ok(m) => m.is_file() && m.len() >= 16384,
+            Err(_) => false,
+        };
+        if !usable {
+            set(r, "skipped", "true".into());
+            set(r, "same", "true".into());
+            return;
+        }
+        let mut h1 = Hasher::new();
+        let f = std::fs::File::open(path).expect("driver: open");
+        let r1 = h1.update_reader(f).is_ok();
+        let mut h2 = Hasher::new();
+        let r2 = h2.update_mmap(path).is_ok();
+        let mut same = r1 == r2 && h1.count() == h2.count() && h1.finalize() == h2.finalize();
+        #[cfg(feature = "rayon")]
+        {
+            let mut h3 = Hasher::new();
+            let r3 = h3.update_mmap_rayon(path).is_ok();
+            same = same && r1 == r3 && h1.count() == h3.count() && h1.finalize() == h3.finalize();
+        }
+        set(r, "skipped", "false".into());
+        set(r, "same", same.to_string());
+        set(r, "reader_count", h1.count().to_string());
+        set(r, "mmap_count", h2.count().to_string());
+    }
+    #[cfg(not(feature = "mmap"))]
+    {
+        let _ = path;
+        set(r, "skipped", "true".into());
+        set(r, "same", "true".into());
+    }
+}
+
 fn k_info(r: &R) {
     set(r, "hasher_debug", esc(&format!("{:?}", Hasher::new())));
     set(r, "detect", esc(&format!("{:?}", Platform::detect())));
@@ -1296,6 +1337,7 @@ fn main() {
             "reader" => k_reader(sc, &rec),
             "platform" => k_platform(sc, &rec),
             "info" => k_info(&rec),
+            "mmap_special" => k_mmap_special(sc, &rec),
             k => panic!("driver: unknown kind {:?}", k),
         }));
         CUR_START_MS.store(0, Ordering::SeqCst);
